@@ -216,3 +216,410 @@ theorem linesOf_unlines (ls : List (List Char)) (h : ∀ l ∈ ls, '\n' ∉ l) :
   simpa [linesOf, linesAux] using this
 
 end Okane.Print
+
+namespace Okane.Print
+open Okane Okane.Literal
+
+/-! ## the real number printer emits one-byte, one-column characters only -/
+
+/-- the characters `impl Display for PrettyDecimal` can emit -/
+def NumChar (c : Char) : Prop := (∃ k, k < 10 ∧ c = digitChar k) ∨ c = '-' ∨ c = '.' ∨ c = ','
+
+theorem digitChar_narrow : ∀ k, k < 10 → Narrow widthCjk (digitChar k) := by
+  decide
+
+theorem NumChar.narrow {c : Char} (h : NumChar c) : Narrow widthCjk c := by
+  rcases h with ⟨k, hk, rfl⟩ | rfl | rfl | rfl
+  · exact digitChar_narrow k hk
+  · decide
+  · decide
+  · decide
+
+theorem numChar_zero : NumChar '0' := Or.inl ⟨0, by decide, by decide⟩
+
+theorem mem_digits (n : Nat) : ∀ c ∈ digits n, NumChar c := by
+  induction n using Nat.strongRecOn with
+  | _ n ih =>
+    intro c hc
+    rw [digits] at hc
+    split at hc
+    · simp only [List.mem_singleton] at hc
+      exact Or.inl ⟨n, by assumption, hc⟩
+    · rcases List.mem_append.mp hc with h | h
+      · exact ih (n / 10) (by omega) c h
+      · simp only [List.mem_singleton] at h
+        exact Or.inl ⟨n % 10, by omega, h⟩
+
+theorem mem_digits0 (n : Nat) : ∀ c ∈ digits0 n, NumChar c := by
+  intro c hc
+  unfold digits0 at hc
+  split at hc
+  · cases hc
+  · exact mem_digits n c hc
+
+theorem mem_padZeros (w : Nat) (ds : List Char) (h : ∀ c ∈ ds, NumChar c) : ∀ c ∈ padZeros w ds, NumChar c := by
+  intro c hc
+  rcases List.mem_append.mp hc with h1 | h1
+  · rw [(List.mem_replicate.mp h1).2]; exact numChar_zero
+  · exact h c h1
+
+theorem mem_printPlain (d : PDec) : ∀ c ∈ printPlain d, NumChar c := by
+  intro c hc
+  have hch := mem_padZeros d.scale _ (mem_digits0 d.mant)
+  simp only [printPlain, List.mem_append] at hc
+  rcases hc with (h | h) | h
+  · split at h
+    · simp only [List.mem_singleton] at h; exact Or.inr (Or.inl h)
+    · cases h
+  · split at h
+    · simp only [List.mem_singleton] at h; rw [h]; exact numChar_zero
+    · exact hch c (List.mem_of_mem_take h)
+  · split at h
+    · cases h
+    · rcases List.mem_cons.mp h with h | h
+      · exact Or.inr (Or.inr (Or.inl h))
+      · exact hch c (List.mem_of_mem_drop h)
+
+theorem mem_groupLoop (fuel : Nat) : ∀ (rem : List Char) (scale cp : Nat) (ini : Bool),
+    (∀ c ∈ (groupLoop fuel rem scale cp ini).1, c = ',' ∨ c ∈ rem) ∧
+    (∀ c ∈ (groupLoop fuel rem scale cp ini).2.1, c ∈ rem) := by
+  induction fuel with
+  | zero => intro rem scale cp ini; simp [groupLoop]
+  | succ fuel ih =>
+    intro rem scale cp ini
+    rw [groupLoop]
+    split
+    · have ih' := ih (rem.drop cp) scale 3 false
+      constructor
+      · intro c hc
+        simp only [List.mem_append] at hc
+        rcases hc with (h | h) | h
+        · split at h
+          · cases h
+          · simp only [List.mem_singleton] at h; exact Or.inl h
+        · exact Or.inr (List.mem_of_mem_take h)
+        · rcases ih'.1 c h with h | h
+          · exact Or.inl h
+          · exact Or.inr (List.mem_of_mem_drop h)
+      · intro c hc
+        exact List.mem_of_mem_drop (ih'.2 c hc)
+    · simp
+
+theorem mem_printComma (d : PDec) : ∀ c ∈ printComma d, NumChar c := by
+  intro c hc
+  have hch := mem_padZeros d.scale _ (mem_digits d.mant)
+  simp only [printComma] at hc
+  generalize hm : padZeros d.scale (digits d.mant) = mantissa at hc hch
+  generalize hcp : (if (mantissa.length - d.scale) % 3 = 0 then 3 else (mantissa.length - d.scale) % 3) = cp at hc
+  have hg := mem_groupLoop mantissa.length mantissa d.scale cp true
+  generalize groupLoop mantissa.length mantissa d.scale cp true = r at hc hg
+  obtain ⟨out, rem, ini⟩ := r
+  simp only [List.mem_append] at hc
+  rcases hc with ((h | h) | h) | h
+  · split at h
+    · simp only [List.mem_singleton] at h; exact Or.inr (Or.inl h)
+    · cases h
+  · rcases hg.1 c h with h | h
+    · exact Or.inr (Or.inr (Or.inr h))
+    · exact hch c h
+  · split at h
+    · simp only [List.mem_singleton] at h; rw [h]; exact numChar_zero
+    · cases h
+  · split at h
+    · cases h
+    · rcases List.mem_cons.mp h with h | h
+      · exact Or.inr (Or.inr (Or.inl h))
+      · exact hch c (hg.2 c h)
+
+theorem mem_printPDec (d : PDec) : ∀ c ∈ printPDec d, NumChar c := by
+  unfold printPDec
+  split
+  · exact mem_printComma d
+  · exact mem_printPlain d
+
+end Okane.Print
+
+namespace Okane.Print
+open Okane Okane.Literal
+
+/-! ## no line feed in a printed line body -/
+
+/-- `'\n' ∉ s` as a predicate that `simp` can push through concatenations -/
+def nlf (s : List Char) : Prop := '\n' ∉ s
+
+@[simp] theorem nlf_nil : nlf [] := by simp [nlf]
+@[simp] theorem nlf_cons (c : Char) (s : List Char) : nlf (c :: s) ↔ c ≠ '\n' ∧ nlf s := by
+  simp [nlf, eq_comm]
+@[simp] theorem nlf_append (a b : List Char) : nlf (a ++ b) ↔ nlf a ∧ nlf b := by
+  simp [nlf]
+@[simp] theorem nlf_spaces (n : Nat) : nlf (spaces n) := by
+  simp [nlf, spaces, List.mem_replicate]
+
+theorem NumChar.ne_lf {c : Char} (h : NumChar c) : c ≠ '\n' := by
+  rcases h with ⟨k, hk, rfl⟩ | rfl | rfl | rfl
+  · revert k; decide
+  · decide
+  · decide
+  · decide
+
+theorem nlf_of_numChars {s : List Char} (h : ∀ c ∈ s, NumChar c) : nlf s :=
+  fun hm => (h _ hm).ne_lf rfl
+
+theorem std_numNoLF (prec : String → Nat) : NumNoLF (Ctx.std prec) :=
+  fun _ _ => nlf_of_numChars (mem_printPDec _)
+
+theorem nlf_padNat (n w : Nat) : nlf (padNat n w) := by
+  apply nlf_of_numChars
+  intro c hc
+  rcases List.mem_append.mp hc with h | h
+  · rw [(List.mem_replicate.mp h).2]; exact numChar_zero
+  · exact mem_digits n c h
+
+theorem nlf_fmtDate (d : Date) : nlf (fmtDate d) := by
+  have h4 := nlf_padNat
+  unfold fmtDate fmtYear
+  split
+  · simp [h4]
+  · split <;> simp [h4]
+
+theorem rustLinesAux_nlf (s : List Char) : ∀ cur, nlf cur → ∀ l ∈ rustLinesAux s cur, nlf l := by
+  induction s with
+  | nil =>
+    intro cur hcur l hl
+    cases cur with
+    | nil => simp [rustLinesAux] at hl
+    | cons c cur =>
+      simp only [rustLinesAux, List.mem_singleton] at hl
+      subst hl
+      simpa [nlf] using hcur
+  | cons c cs ih =>
+    intro cur hcur l hl
+    rw [rustLinesAux] at hl
+    split at hl
+    · rcases List.mem_cons.mp hl with h | h
+      · subst h
+        split
+        · rename_i cur' 
+          have : nlf cur' := by simp at hcur; exact hcur.2
+          simpa [nlf] using this
+        · simpa [nlf] using hcur
+      · exact ih [] nlf_nil l h
+    · rename_i hne
+      exact ih (c :: cur) (by simp [hcur, hne]) l hl
+
+theorem lineWrap_nlf (pre content : List Char) (hpre : nlf pre) : ∀ l ∈ lineWrap pre content, nlf l := by
+  intro l hl
+  simp only [lineWrap, List.mem_map] at hl
+  obtain ⟨x, hx, rfl⟩ := hl
+  simp [hpre, rustLinesAux_nlf content [] nlf_nil x hx]
+
+mutual
+theorem fmtExpr_nlf (cx : Ctx) (hn : NumNoLF cx) : ∀ e : Expr, exprNoLF e → nlf (fmtExpr cx e).1
+  | .neg e, h => by
+    rw [exprNoLF] at h
+    rw [fmtExpr]; simp [fmtExpr_nlf cx hn e h]
+  | .bin op l r, h => by
+    rw [exprNoLF] at h
+    rw [fmtExpr]
+    have : opChar op ≠ '\n' := by cases op <;> decide
+    simp [fmtExpr_nlf cx hn l h.1, fmtExpr_nlf cx hn r h.2, this]
+  | .val v, h => by
+    rw [exprNoLF] at h
+    rw [fmtExpr]; exact fmtVExpr_nlf cx hn v h
+theorem fmtVExpr_nlf (cx : Ctx) (hn : NumNoLF cx) : ∀ v : VExpr, vexprNoLF v → nlf (fmtVExpr cx v).1
+  | .paren e, h => by
+    rw [vexprNoLF] at h
+    rw [fmtVExpr]; simp [fmtExpr_nlf cx hn e h]
+  | .amt v c, h => by
+    rw [vexprNoLF] at h
+    rw [fmtVExpr]
+    have hnum : nlf (cx.num v c) := hn v c
+    split
+    · exact hnum
+    · simp [hnum]; exact h
+end
+
+theorem printVExpr_nlf (cx : Ctx) (hn : NumNoLF cx) (v : VExpr) (h : vexprNoLF v) : nlf (printVExpr cx v) :=
+  fmtVExpr_nlf cx hn v h
+
+theorem printLot_nlf (cx : Ctx) (hn : NumNoLF cx) (l : Lot) (h : lotNoLF l) : nlf (printLot cx l) := by
+  obtain ⟨hp, hnote⟩ := h
+  unfold printLot
+  have e1 : nlf " {{".toList := by decide
+  have e2 : nlf "}}".toList := by decide
+  have e3 : nlf " {".toList := by decide
+  have e4 : nlf "}".toList := by decide
+  have e5 : nlf " [".toList := by decide
+  have e6 : nlf "]".toList := by decide
+  have e7 : nlf " (".toList := by decide
+  have e8 : nlf ")".toList := by decide
+  refine (nlf_append _ _).mpr ⟨(nlf_append _ _).mpr ⟨?_, ?_⟩, ?_⟩
+  · cases hpr : l.price with
+    | none => simp
+    | some x =>
+      rw [hpr] at hp
+      cases x with
+      | total e => simp [e1, e2, printVExpr_nlf cx hn e hp]
+      | rate e => simp [e3, e4, printVExpr_nlf cx hn e hp]
+  · cases l.date with
+    | none => simp
+    | some d => simp [e5, e6, nlf_fmtDate d]
+  · cases hno : l.note with
+    | none => simp
+    | some n =>
+      rw [hno] at hnote
+      simp [e7, e8]; exact hnote
+
+theorem printCost_nlf (cx : Ctx) (hn : NumNoLF cx) (c : Option Exchange) (h : optNoLF exchangeNoLF c) :
+    nlf (printCost cx c) := by
+  have e1 : nlf " @ ".toList := by decide
+  have e2 : nlf " @@ ".toList := by decide
+  cases c with
+  | none => simp [printCost]
+  | some x =>
+    cases x with
+    | total e => simp [printCost, e2, printVExpr_nlf cx hn e h]
+    | rate e => simp [printCost, e1, printVExpr_nlf cx hn e h]
+
+theorem printMetaValue_nlf (v : MetaValue) (h : metaValueNoLF v) : nlf (printMetaValue v) := by
+  have e1 : nlf ":: ".toList := by decide
+  have e2 : nlf ": ".toList := by decide
+  cases v with
+  | text s => simp [printMetaValue, e2]; exact h
+  | expr s => simp [printMetaValue, e1]; exact h
+
+theorem metaLine_nlf (n : Nat) (m : Metadata) (h : metadataNoLF m) : nlf (metaLine n m) := by
+  unfold metaLine
+  have : nlf (printMetadata m) := by
+    cases m with
+    | comment s => exact h
+    | wordTags ts =>
+      simp only [printMetadata, nlf_cons, ne_eq]
+      refine ⟨by decide, ?_⟩
+      intro hm
+      simp only [List.mem_flatMap, List.mem_append, List.mem_singleton] at hm
+      obtain ⟨t, ht, h1 | h1⟩ := hm
+      · exact h t ht h1
+      · exact absurd h1 (by decide)
+    | keyValue k v =>
+      simp only [printMetadata, nlf_append]
+      exact ⟨h.1, printMetaValue_nlf v h.2⟩
+  simp [this]
+
+theorem clearMark_nlf (c : ClearState) : nlf (clearMark c) := by
+  cases c <;> simp [clearMark]
+
+theorem postingHead_nlf (cx : Ctx) (hn : NumNoLF cx) (p : Posting) (h : postingNoLF p) : nlf (postingHead cx p) := by
+  obtain ⟨hacc, hamt, hbal, _⟩ := h
+  unfold postingHead amountPart balancePart
+  have hacc' : nlf p.account.toList := hacc
+  have h1 : nlf (match p.amount with
+      | none => []
+      | some a =>
+        spaces (getColumn Params.amountColumn (accountWidth cx p + (fmtVExpr cx a.amount).2.absolute) Params.amountPadding)
+          ++ (fmtVExpr cx a.amount).1 ++ printLot cx a.lot ++ printCost cx a.cost) := by
+    cases ha : p.amount with
+    | none => simp
+    | some a =>
+      rw [ha] at hamt
+      obtain ⟨h1, h2, h3⟩ := hamt
+      simp [fmtVExpr_nlf cx hn a.amount h1, printLot_nlf cx hn a.lot h3, printCost_nlf cx hn a.cost h2]
+  have h2 : nlf (match p.balance with
+      | none => []
+      | some b => padLeft (balancePadding cx p b) [' ', '='] ++ ' ' :: printVExpr cx b) := by
+    cases hb : p.balance with
+    | none => simp
+    | some b =>
+      rw [hb] at hbal
+      simp [padLeft, printVExpr_nlf cx hn b hbal]
+  simp [clearMark_nlf, hacc', h1, h2]
+
+theorem txnHeader_nlf (t : Transaction) (h : txnNoLF t) : nlf (txnHeader t) := by
+  obtain ⟨hp, hc, _, _⟩ := h
+  unfold txnHeader
+  have hp' : nlf t.payee.toList := hp
+  have h1 : nlf (match t.effectiveDate with | some e => '=' :: fmtDate e | none => []) := by
+    cases t.effectiveDate <;> simp [nlf_fmtDate]
+  have h2 : nlf (match t.code with | some c => '(' :: c.toList ++ [')', ' '] | none => []) := by
+    cases hcode : t.code with
+    | none => simp
+    | some c =>
+      rw [hcode] at hc
+      have : nlf c.toList := hc
+      simp [this]
+  simp [nlf_fmtDate, h1, h2, hp', clearMark_nlf]
+
+/-- when no single-line field of the entry holds a line feed, no printed line body does: the line bodies are the lines
+of the printed text -/
+theorem entryLines_nlf (cx : Ctx) (hn : NumNoLF cx) (e : Entry) (h : entryNoLF e) : ∀ l ∈ entryLines cx e, '\n' ∉ l := by
+  intro l hl
+  show nlf l
+  cases e with
+  | txn t =>
+    have ht : txnNoLF t := h
+    simp only [entryLines, txnLines, List.mem_append, List.mem_cons, List.mem_map, List.mem_flatMap] at hl
+    rcases hl with (rfl | ⟨m, hm, rfl⟩) | ⟨p, hp, hl⟩
+    · exact txnHeader_nlf t ht
+    · exact metaLine_nlf _ m (ht.2.2.1 m hm)
+    · simp only [postingLines, List.mem_cons, List.mem_map] at hl
+      rcases hl with rfl | ⟨m, hm, rfl⟩
+      · exact postingHead_nlf cx hn p (ht.2.2.2 p hp)
+      · exact metaLine_nlf _ m ((ht.2.2.2 p hp).2.2.2 m hm)
+  | comment s => exact lineWrap_nlf _ _ (by simp) l hl
+  | applyTag k v =>
+    simp only [entryLines, List.mem_singleton] at hl
+    subst hl
+    have hk : nlf k.toList := h.1
+    have e1 : nlf "apply tag ".toList := by decide
+    cases v with
+    | none => simp [e1, hk]
+    | some x => simp [e1, hk, printMetaValue_nlf x h.2]
+  | endApplyTag =>
+    simp only [entryLines, List.mem_singleton] at hl
+    subst hl; decide
+  | «include» p =>
+    simp only [entryLines, List.mem_singleton] at hl
+    subst hl
+    have hp : nlf p.toList := h
+    have e1 : nlf "include ".toList := by decide
+    simp [e1, hp]
+  | account n ds =>
+    simp only [entryLines, List.mem_cons, List.mem_flatMap] at hl
+    have e1 : nlf "account ".toList := by decide
+    have hname : nlf n.toList := h.1
+    rcases hl with rfl | ⟨d, hd, hl⟩
+    · simp [e1, hname]
+    · have hd' := h.2 d hd
+      cases d with
+      | comment s => exact lineWrap_nlf _ _ (by decide) l hl
+      | note s => exact lineWrap_nlf _ _ (by decide) l hl
+      | alias s =>
+        simp only [accountDetailLines, List.mem_singleton] at hl
+        subst hl
+        have e2 : nlf Params.detailAliasPrefix.toList := by decide
+        have hs : nlf s.toList := hd'
+        simp [e2, hs]
+  | commodity n ds =>
+    simp only [entryLines, List.mem_cons, List.mem_flatMap] at hl
+    have e1 : nlf "commodity ".toList := by decide
+    have hname : nlf n.toList := h.1
+    rcases hl with rfl | ⟨d, hd, hl⟩
+    · simp [e1, hname]
+    · have hd' := h.2 d hd
+      cases d with
+      | comment s => exact lineWrap_nlf _ _ (by decide) l hl
+      | note s => exact lineWrap_nlf _ _ (by decide) l hl
+      | alias s =>
+        simp only [commodityDetailLines, List.mem_singleton] at hl
+        subst hl
+        have e2 : nlf Params.cdetailAliasPrefix.toList := by decide
+        have hs : nlf s.toList := hd'
+        simp [e2, hs]
+      | format v c =>
+        simp only [commodityDetailLines, List.mem_singleton] at hl
+        subst hl
+        have e2 : nlf Params.cdetailFormatPrefix.toList := by decide
+        have hc : vexprNoLF (.amt v c) := by rw [vexprNoLF]; exact hd'
+        simp [e2, printVExpr_nlf cx hn _ hc]
+
+end Okane.Print
